@@ -34,7 +34,7 @@ ASSUMPTIONS = [
     '(the statement does not say whether 1 is a wrong-typed 1.0)',
 ]
 ANCHORS = ['TableValidator._validate_json', 'TableValidator._validate_hdf5', 'TableValidator._valid_sparse_data', 'TableValidator._valid_dense_data', 'TableValidator._valid_rows', 'TableValidator._valid_columns', 'TableValidator._valid_hdf5_metadata_v210', 'Table.to_json', 'Table.to_hdf5']
-REQUIRED = ['dressed_documents_accepted_and_loaded', 'files_with_utc_offset_in_date', 'accept_with_explicit_version',
+REQUIRED = ['must_reject_through_command', 'dressed_documents_accepted_and_loaded', 'files_with_utc_offset_in_date', 'accept_with_explicit_version',
             'must_reject_with_explicit_version', 'accept_json', 'accept_hdf5', 'accept_after_load', 'accept_cli', 'json_mutants',
             'hdf5_mutants', 'pair_mutants', 'must_reject_checked',
             'accepted_and_loaded']
@@ -535,6 +535,13 @@ def run_case(ctx, index):
                         v = 'valid'
                         desc['format_version'] = ver
                         break
+            if must and v != 'valid' and r.random() < .08:
+                rr = _cli(['validate-table', '-i', mp])
+                if rr.exit_code == 0 or 'is a valid BIOM' in rr.output:
+                    v = 'valid'
+                    desc['via'] = 'biom validate-table (exit %s: %r)' % (
+                        rr.exit_code, rr.output[-120:])
+                ctx.count('must_reject_through_command')
             if v == 'valid':
                 if must:
                     raise Violation('C15/corruption-accepted/json/' +
@@ -620,6 +627,14 @@ def run_case(ctx, index):
                         v = 'valid'
                         desc['format_version'] = ver
                         break
+            if must and v != 'valid' and r.random() < .08:
+                # the command itself: not "is a valid BIOM", not exit 0
+                rr = _cli(['validate-table', '-i', mp])
+                if rr.exit_code == 0 or 'is a valid BIOM' in rr.output:
+                    v = 'valid'
+                    desc['via'] = 'biom validate-table (exit %s: %r)' % (
+                        rr.exit_code, rr.output[-120:])
+                ctx.count('must_reject_through_command')
             if v == 'valid' and must:
                 raise Violation('C15/corruption-accepted/hdf5/' +
                                 label.split(':')[0].split('+')[0],
